@@ -1084,7 +1084,79 @@ func builtinSnapshot() (map[string]string, string) {
 	return out, ""
 }
 
+// c16WorkingDirectory: calls made without any location anchor the in-memory root at <cwd>/.root, the working
+// directory being read at the time of the call: after a change of directory the relative references of the next
+// call are requested from the new directory (nothing about the earlier one is remembered).
+func c16WorkingDirectory(c *Ctx) {
+	old, err := os.Getwd()
+	if err != nil {
+		return
+	}
+	defer func() { _ = os.Chdir(old) }()
+	var dirs []string
+	for i := 0; i < 3; i++ {
+		d, err := os.MkdirTemp("", "verif-c16-")
+		if err != nil {
+			return
+		}
+		defer os.RemoveAll(d)
+		if r, err := filepath.EvalSymlinks(d); err == nil {
+			d = r
+		}
+		dirs = append(dirs, d)
+	}
+	doc := `{"swagger":"2.0","info":{"title":"t","version":"1"},"paths":{},"definitions":{"a":{"$ref":"types.json#/definitions/id"},"b":{"type":"object","properties":{"p":{"$ref":"sub/more.json#/definitions/id"}}}},"parameters":{"p":{"name":"b","in":"body","schema":{"$ref":"types.json#/definitions/id"}}}}`
+	for round := 0; round < c.N(6, 40); round++ {
+		d := dirs[c.Intn(len(dirs))]
+		if err := os.Chdir(d); err != nil {
+			return
+		}
+		var loads []string
+		loader := func(u string) (json.RawMessage, error) {
+			loads = append(loads, u)
+			return json.RawMessage(`{"definitions":{"id":{"type":"string","description":` + quoteJSON(u) + `}}}`), nil
+		}
+		want := []string{(&url.URL{Scheme: "file", Path: path.Join(filepath.ToSlash(d), "types.json")}).String(), (&url.URL{Scheme: "file", Path: path.Join(filepath.ToSlash(d), "sub/more.json")}).String()}
+		entry := c.Intn(3)
+		var cerr error
+		pan := safely(func() {
+			switch entry {
+			case 0:
+				var sw spec.Swagger
+				_ = json.Unmarshal([]byte(doc), &sw)
+				cerr = spec.ExpandSpec(&sw, &spec.ExpandOptions{PathLoader: loader})
+			case 1:
+				var sw spec.Swagger
+				_ = json.Unmarshal([]byte(doc), &sw)
+				s := sw.Definitions["b"]
+				oldL := spec.PathLoader
+				spec.PathLoader = loader
+				cerr = spec.ExpandSchema(&s, &sw, nil)
+				spec.PathLoader = oldL
+				want = want[1:]
+			default:
+				var sw spec.Swagger
+				_ = json.Unmarshal([]byte(doc), &sw)
+				ref := spec.MustCreateRef("types.json#/definitions/id")
+				_, cerr = spec.ResolveRefWithBase(&sw, &ref, &spec.ExpandOptions{PathLoader: loader})
+				want = want[:1]
+			}
+		})
+		c.Count(fmt.Sprint("cwd", round, d, entry), true)
+		c.Hit("working-directory-changed")
+		cs := map[string]interface{}{"working_directory": d, "entry": []string{"ExpandSpec", "ExpandSchema", "ResolveRefWithBase"}[entry], "round": round, "document": json.RawMessage(doc)}
+		if pan != "" || cerr != nil {
+			c.Fail(Failure{Kind: "oracle", Sig: "C08:spurious-error", What: fmt.Sprint("a call without a location fails: ", cerr, pan), Case: cs})
+			continue
+		}
+		if fmt.Sprint(sortedSet(loads)) != fmt.Sprint(sortedSet(want)) {
+			c.Fail(Failure{Kind: "oracle", Sig: "C16:depends-on-history", What: fmt.Sprintf("a call made without a location from working directory %s requested %v from the loader, want %v (what an earlier call made from another directory anchored its root at is not this call's business)", d, sortedSet(loads), sortedSet(want)), Case: cs})
+		}
+	}
+}
+
 func runC16(c *Ctx) {
+	c16WorkingDirectory(c)
 	c.Res.Rule = "random histories (length <= 12 quick / 40 thorough) of public calls made without a caller cache - ExpandSpec (all option combinations), ExpandSchemaWithBasePath, ExpandSchema/ExpandParameterWithRoot/ExpandResponseWithRoot, ResolveRefWithBase, expansions of the two built-in meta-schemas - over a small family of worlds that share document URLs with changed content; oracle: every call's outcome and loader requests (as a set) equal those of the same call made alone in a fresh process, caller options unchanged, built-in meta-schemas resolve without the loader to the embedded assets before and after; non-trivial = call whose world has at least one cross-document reference; distinct by (world, call)"
 	want, msg := builtinSnapshot()
 	if msg != "" {
